@@ -123,14 +123,36 @@ CFG_ATTR = {
 SETTERS = {"breeze_away": bool, "breeze_mild": bool, "breezeless": bool, "ieco": bool}
 
 
+PUBLIC_SETTER = {"beep": "beep", "power": "power_state", "mode": "operational_mode", "fan": "fan_speed", "swing": "swing_mode",
+                 "eco": "eco", "turbo": "turbo", "sleep": "sleep", "f": "fahrenheit", "follow": "follow_me", "pur": "purifier",
+                 "auxmode": "aux_mode", "reqe": "enable_energy_usage_requests", "bin": "use_alternate_energy_format",
+                 "temp": "target_temperature", "freeze": "freeze_protection", "hum": "target_humidity"}
+
+
+def _set_state(dev, name, private, val):
+    """set a state attribute by its usual private name; if that name is gone (renamed), through the public setter"""
+    if hasattr(dev, private):
+        setattr(dev, private, val)
+        return
+    pub = PUBLIC_SETTER.get(name)
+    if pub is not None and hasattr(type(dev), pub):
+        try:
+            if name in ("mode", "swing", "auxmode") and val is not None:
+                enum_t = type(getattr(dev, pub))
+                val = enum_t(val)
+            setattr(dev, pub, val)
+        except Exception:  # noqa
+            pass
+
+
 def _pyset(dev, name, value, via_setter):
     """value is the token string used on the driver line"""
     if name == "temp":
-        dev._target_temperature = int(value) / 100
+        _set_state(dev, name, "_target_temperature", int(value) / 100)
     elif name == "freeze":
-        dev._freeze_protection = None if value == "None" else value == "1"
+        _set_state(dev, name, "_freeze_protection", None if value == "None" else value == "1")
     elif name == "hum":
-        dev._target_humidity = None if value == "None" else int(value)
+        _set_state(dev, name, "_target_humidity", None if value == "None" else int(value))
     elif name == "sprops":
         dev._supported_properties = set(C.PropertyId(int(x)) for x in value.split("+") if x)
     elif name in SETTERS:
@@ -143,7 +165,7 @@ def _pyset(dev, name, value, via_setter):
         dev.rate_select = int(value)
     elif name in CFG_ATTR:
         attr, typ = CFG_ATTR[name]
-        setattr(dev, attr, (value == "1") if typ is bool else int(value))
+        _set_state(dev, name, attr, (value == "1") if typ is bool else int(value))
     else:
         raise KeyError(name)
 
